@@ -380,9 +380,13 @@ def _mk_world(repo, region, rec, cls_of):
         def toms748(a, k):
             f, lo, hi = a[0], a[1], a[2]
             args = list(k.get("args", ()))
-            rec["toms748"].append({"bracket": (str(to_poly(lo)), str(to_poly(hi))), "args": [str(to_poly(x)) for x in args], "xtol": k.get("xtol"), "rtol": k.get("rtol")})
+            try:
+                lo_value, hi_value = to_poly(lo).evalf(region), to_poly(hi).evalf(region)
+            except Undecided:
+                lo_value = hi_value = None
+            rec["toms748"].append({"bracket": (str(to_poly(lo)), str(to_poly(hi))), "lo_value": lo_value, "hi_value": hi_value, "args": [str(to_poly(x)) for x in args], "xtol": k.get("xtol"), "rtol": k.get("rtol")})
             if isinstance(f, Closure):
-                for x in (lo, hi, (to_poly(lo) + to_poly(hi)) / 2):  # a root finder evaluates the ends, then interior points: not in increasing order
+                for x in (lo, hi, (to_poly(lo) + to_poly(hi)) / 2, (to_poly(lo) * 3 + to_poly(hi)) / 4):  # a root finder evaluates the ends, then interior points: not in increasing order
                     n0 = len(rec["hypotest"])
                     f.interp.call_function(f.node, [x] + args, {})
                     for h in rec["hypotest"][n0:]:
@@ -396,7 +400,8 @@ def _mk_world(repo, region, rec, cls_of):
         def arg_best(a, k, best):
             vals = [num(x) for x in a[0]]
             if not vals:
-                raise Undecided("argmin/argmax of an empty selection")
+                from ..alg import _PyRaise
+                raise _PyRaise("ValueError")  # numpy: attempt to get argmin/argmax of an empty sequence
             return Poly.const(vals.index(best(vals)))
 
         ext.update({
@@ -553,6 +558,45 @@ def _interpreted(ctx, r5, r6, repo):
             ctx.holds(r6, f"{UL}::toms748_scan [second call, data refilled in place]", f"{len(second)} fresh hypotest evaluations on the current data")
     except errs as e:
         ctx.unrecognised(r6, ul, "upper_limit (automatic)", f"not interpretable: {type(e).__name__}: {e}")
+    # ---------------------------------------------------------------- automatic, curves crossing at different places
+    rec = {"hypotest": [], "interp": [], "toms748": []}
+    region = AutoRegion()
+    region.update({"LO": F_(0), "HI": F_(10), "LEVEL": F_(1, 20), "ATOL": F_(1, 100), "RTOL": F_(1, 100)})
+    cross = [F_(3), F_(4), F_(6), F_(7), F_(9), F_(15)]  # observed, then -2 .. +2 sigma: the +2 sigma curve crosses BEYOND the POI's upper bound
+
+    def cls_spread(poi, region=region):
+        v = poi.evalf(region)
+        # strictly decreasing curves: the cached point closest below / above each crossing is that curve's best bracket
+        return [max(F_(1, 20) + (cross[k_] - v) / 100, F_(1, 10000)) for k_ in range(6)]
+
+    try:
+        from ..alg import RaisedInFragment
+        w = mk_world(region, rec, cls_spread)
+        MODEL = Obj("MODEL", {"config": Obj("config", {"poi_name": "mu"})})
+        w.base[".suggested_bounds"] = lambda r_, a, k: [(at("LO"), at("HI")), (at("NLO"), at("NHI"))] if isinstance(r_, Obj) and r_.name == "config" else (_ for _ in ()).throw(NotHandled())
+        w.base[".par_slice"] = lambda r_, a, k: Obj("slice", {"start": Poly.const(0), "stop": Poly.const(1)}) if isinstance(r_, Obj) and r_.name == "config" else (_ for _ in ()).throw(NotHandled())
+        w.ext = None
+        w.call_func(ul, [[at("e0"), at("e1")], MODEL], {"level": at("LEVEL")})
+        tcs = rec["toms748"]
+        probs = []
+        if len(tcs) != 6:
+            probs.append(f"{len(tcs)} root searches, expected 1 observed + 5 expected")
+        else:
+            for k_, tc in enumerate(tcs):
+                lo_v, hi_v = tc.get("lo_value"), tc.get("hi_value")
+                if lo_v is None or hi_v is None:
+                    continue
+                if not (lo_v < cross[k_] <= hi_v):
+                    probs.append(f"the root search for curve {k_} ({'observed' if k_ == 0 else '%+d sigma' % (k_ - 3)}) is bracketed by [{lo_v}, {hi_v}]; that curve crosses the level at mu = {cross[k_]}: the bracket does not contain the crossing (the scan range was not extended until EVERY curve is below the level)")
+                    break
+        if probs:
+            ctx.violated(r6, toms, "automatic scan, curves crossing at different places", probs[0], expected="each of the six root searches bracketed around its own curve's crossing", found=probs[0])
+        else:
+            ctx.holds(r6, f"{UL}::toms748_scan [interpreted; the +2 sigma curve crosses beyond the POI bound]", "the range is extended until every curve is below the level; each root search is bracketed around its own crossing")
+    except RaisedInFragment as e:
+        ctx.violated(r6, toms, "automatic scan, curves crossing at different places", f"raises {e.exc_name}: the scan range is not extended until every curve has crossed the level, so an expected limit has no bracket")
+    except errs as e:
+        ctx.unrecognised(r6, ul, "upper_limit (automatic, spread curves)", f"not interpretable: {type(e).__name__}: {e}")
 
 
 def _toy_band(ctx, rid, repo):
